@@ -49,7 +49,15 @@ fn render(lines: &[(u8, u32)], final_newline: bool) -> (Vec<u8>, Vec<(u64, Strin
     let mut starts = vec![];
     for (i, (c, extra)) in lines.iter().enumerate() {
         let utf8 = *c >= 100;
-        let name = if utf8 { NAMES_UTF8[(*c as usize - 100) % NAMES_UTF8.len()] } else { NAMES[*c as usize % NAMES.len()] };
+        // codes 0..7 and 100..107 name the table entries; larger codes get a numeric suffix (many chromosomes)
+        let name: String = if utf8 {
+            NAMES_UTF8[(*c as usize - 100) % NAMES_UTF8.len()].to_string()
+        } else if (*c as usize) < NAMES.len() {
+            NAMES[*c as usize].to_string()
+        } else {
+            format!("{}_{}", NAMES[*c as usize % NAMES.len()], *c as usize / NAMES.len())
+        };
+        let name = name.as_str();
         if idx.last().map(|l| l.1 != name).unwrap_or(true) {
             idx.push((text.len() as u64, name.to_string()));
         }
@@ -395,7 +403,7 @@ impl Prop for C18 {
     }
     fn strategy(_tier: Tier) -> BoxedStrategy<Case> {
         let text = (
-            proptest::collection::vec((1usize..=30, prop_oneof![8 => Just(0u32), 2 => 1u32..40, 1 => 40u32..4000]), 1..=8),
+            proptest::collection::vec((1usize..=30, prop_oneof![16 => Just(0u32), 4 => 1u32..40, 2 => 40u32..4000, 1 => 8000u32..20_000]), 1..=8),
             any::<bool>(),
             prop::bool::weighted(0.8),
             any::<u8>(),
@@ -442,23 +450,9 @@ impl Prop for C18 {
         prop_oneof![text, view].boxed()
     }
     fn fixed_cases(tier: Tier) -> Vec<Case> {
-        let mut v = vec![];
-        let (maxc, maxr) = tier.pick((4u8, 4u8), (5u8, 5u8));
-        for nchroms in 1..=maxc {
-            for mult in [0u8, 3, 10, 40] {
-                for final_newline in [true, false] {
-                    for utf8 in [false, true] {
-                        v.push(Case::IndexGrid { nchroms, max_run: maxr, mult, final_newline, utf8 });
-                    }
-                }
-            }
-        }
-        let maxlen = tier.pick(5u8, 7u8);
-        for len in 0..=maxlen {
-            for a in 0..=len {
-                v.push(Case::ViewGrid { len, a, max_ops: if len <= 5 { 3 } else { 2 } });
-            }
-        }
+        let mut geo = geometric_layouts();
+        let mut v = Self::grid_cases(tier);
+        v.append(&mut geo);
         v
     }
     fn check(case: &Case, obs: &mut Obs) -> Result<(), String> {
@@ -562,4 +556,52 @@ impl Prop for C18 {
             }
         }
     }
+}
+
+impl C18 {
+    fn grid_cases(tier: Tier) -> Vec<Case> {
+        let mut v = vec![];
+        let (maxc, maxr) = tier.pick((4u8, 4u8), (5u8, 5u8));
+        for nchroms in 1..=maxc {
+            for mult in [0u8, 3, 10, 40] {
+                for final_newline in [true, false] {
+                    for utf8 in [false, true] {
+                        v.push(Case::IndexGrid { nchroms, max_run: maxr, mult, final_newline, utf8 });
+                    }
+                }
+            }
+        }
+        let maxlen = tier.pick(5u8, 7u8);
+        for len in 0..=maxlen {
+            for a in 0..=len {
+                v.push(Case::ViewGrid { len, a, max_ops: if len <= 5 { 3 } else { 2 } });
+            }
+        }
+        v
+    }
+}
+
+/// one-line chromosomes whose line lengths alternate short / as-long-as-everything-before (the worst case
+/// for a bisecting indexer: every probe lands in the long last line), 4..=10 pairs, both endings;
+/// and the same with lines beyond 8 KiB in the middle of runs
+fn geometric_layouts() -> Vec<Case> {
+    let mut v = vec![];
+    for pairs in 4..=10usize {
+        for final_newline in [true, false] {
+            let mut lines: Vec<(u8, u32)> = vec![];
+            let mut bytes = 0u32;
+            for k in 0..pairs {
+                lines.push(((2 * k) as u8, 0));
+                bytes += 16;
+                lines.push(((2 * k + 1) as u8, bytes));
+                bytes += 16 + bytes;
+            }
+            v.push(Case::TextFile { lines, final_newline, grouped: true });
+        }
+    }
+    for long in [8191u32, 8192, 8193, 20_000, 70_000] {
+        v.push(Case::TextFile { lines: vec![(0, 0), (0, long), (0, 0), (1, 0), (1, long), (2, 0)], final_newline: true, grouped: true });
+        v.push(Case::TextFile { lines: vec![(0, long), (1, 0), (1, 0), (2, long)], final_newline: false, grouped: true });
+    }
+    v
 }
